@@ -76,13 +76,43 @@ class PathAdd:
     opts = {"returns": "YAMLPath", "event": "('add', self, other, result)"}
 
 
-@contract(PR + "_get_nodes_by_index", props=["C15"])
+IDX = "int(str(%s))" % ATTR
+PLAIN_INDEX = "(not (':' in str(%s)) and int_ok(str(%s)))" % (ATTR, ATTR)
+
+
+def WFY(node, parent, ref, seg):
+    """wf_step for what one iteration yielded, when it yielded (hash / set slices select by a text range)."""
+    return ["len(yielded) <= 1",
+            "implies(len(yielded) == 1, yielded[0].node is %s and yielded[0].parent is %s and same(yielded[0].parentref, %s))" % (node, parent, ref),
+            "implies(len(yielded) == 1, extended_by(yielded[0].ancestry, ancestry, (%s, %s)))" % (parent, ref),
+            "implies(len(yielded) == 1, path_is(yielded[0].path, translated_path, %s))" % seg,
+            "implies(len(yielded) == 1, same(yielded[0].path_segment, pathseg))"]
+
+
+@contract(PR + "_get_nodes_by_index", props=["C15", "C01", "C02"])
 class ByIndex:
+    """INDEX segment.  A plain index on a sequence: exactly that element (negative indexes count from the end) with
+    well-formed coordinates, nothing when out of range or when the data is not a sequence.  Hash / set slices: each
+    iteration yields at most the entry it looks at, selected by the text range, with well-formed coordinates."""
     params = dict(KW, yaml_path="YAMLPath", segment_index="int")
     assume_fields = PATH_FIELDS
     requires = PARSED
     inline = [YP + "escaped", YP + "unescaped"]
     raises = ["YAMLPathException"]
+    ensures = [
+        "implies({p} and isinstance(data, list) and -len(data) <= {i} and {i} < len(data), len(out) == 1)".format(p=PLAIN_INDEX, i=IDX),
+        "implies({p} and isinstance(data, list) and -len(data) <= {i} and {i} < len(data), out[0].node is data[{i}] and out[0].parent is data and same(out[0].parentref, {i}))".format(p=PLAIN_INDEX, i=IDX),
+        "implies({p} and isinstance(data, list) and -len(data) <= {i} and {i} < len(data), extended_by(out[0].ancestry, kw_ancestry, (data, {i})))".format(p=PLAIN_INDEX, i=IDX),
+        "implies({p} and isinstance(data, list) and -len(data) <= {i} and {i} < len(data), path_is(out[0].path, kw_translated_path, '[{{}}]'.format({i})))".format(p=PLAIN_INDEX, i=IDX),
+        "implies({p} and isinstance(data, list) and not (-len(data) <= {i} and {i} < len(data)), len(out) == 0)".format(p=PLAIN_INDEX, i=IDX),
+        "implies({p} and not isinstance(data, (list, set, CommentedSet)), len(out) == 0)".format(p=PLAIN_INDEX),
+    ]
+    loops = {
+        "for key, val in data.items()": {"body_ensures": WFY("val", "data", "key", ESC % "key") + [
+            "(len(yielded) == 1) == (min_match <= str(key) and str(key) <= max_match)"]},
+        "for ele in data": {"body_ensures": WFY("ele", "data", "ele", ESC % "ele") + [
+            "(len(yielded) == 1) == (min_match <= str(ele) and str(ele) <= max_match)"]},
+    }
     opts = dict(SEG_INV, yields="Union[NodeCoords, list]")
 
 
